@@ -7,6 +7,9 @@
 #include "matrix.h"
 #include "pca.h"
 #include "memwrapper.h"
+#ifndef HP_PREFILL
+#define HP_PREFILL 0
+#endif
 void harness(void){
   lsci_verif_nproc = HP_T;
 #if HP_WHICH==0
@@ -22,7 +25,12 @@ void harness(void){
 #endif
   matrix *x; NewMatrix(&x,HP_N,HP_M); double E[HP_N][HP_M];
   for(size_t i=0;i<HP_N;i++)for(size_t j=0;j<HP_M;j++){ x->data[i][j]=in_double(-1e3,1e3); E[i][j]=(x->data[i][j]-mean[j])/scal[j]; }
-  matrix *ps; initMatrix(&ps);
+  matrix *ps;
+#if HP_PREFILL
+  NewMatrix(&ps,HP_N,HP_NPC); for(size_t i=0;i<HP_N;i++)for(size_t k=0;k<HP_NPC;k++) ps->data[i][k]=in_double(-1e3,1e3);
+#else
+  initMatrix(&ps);
+#endif
   PCAScorePredictor(x, m, HP_NPC+HP_EXTRA, ps);
   CHECK(ps->row==HP_N && ps->col==HP_NPC, "one score column per available component (request clamped)");
   for(size_t k=0;k<HP_NPC;k++){
@@ -31,7 +39,12 @@ void harness(void){
     for(size_t i=0;i<HP_N;i++)for(size_t j=0;j<HP_M;j++) E[i][j]-=ps->data[i][k]*m->loadings->data[j][k];
   }
 #else
-  matrix *t,*p,*x; NewMatrix(&t,HP_N,HP_NPC); NewMatrix(&p,HP_M,HP_NPC); initMatrix(&x);
+  matrix *t,*p,*x; NewMatrix(&t,HP_N,HP_NPC); NewMatrix(&p,HP_M,HP_NPC);
+#if HP_PREFILL
+  NewMatrix(&x,HP_N,HP_M); for(size_t i=0;i<HP_N;i++)for(size_t j=0;j<HP_M;j++) x->data[i][j]=in_double(-1e3,1e3);
+#else
+  initMatrix(&x);
+#endif
   for(size_t i=0;i<HP_N;i++)for(size_t k=0;k<HP_NPC;k++) t->data[i][k]=in_double(-1e3,1e3);
   for(size_t j=0;j<HP_M;j++)for(size_t k=0;k<HP_NPC;k++) p->data[j][k]=in_double(-10,10);
   dvector *av,*sc; initDVector(&av); initDVector(&sc); double mean[HP_M], scal[HP_M];
